@@ -159,6 +159,9 @@ func (c *Client) Poll() error {
 // Peer returns the peer of the current stream. If the client is not created or
 // if the peer is not valid nil is returned.
 func (c *Client) Peer() string {
+	if len(c.query.Addrs) == 0 {
+		return ""
+	}
 	return c.query.Addrs[0]
 }
 
